@@ -118,7 +118,7 @@ Lemma d_clone_unfold : forall fs (d : document),
   d_clone xml bytes kid ser par FIXED fs d =
   let '(c1, cl) := c_clone bytes kid FIXED fs (cont _ _ d) in
   let d1 := d_with_cont _ _ d c1 in
-  let '(d2, cl2) := fold_left (clone_body fs) (map fst (xps _ _ d1)) (d1, cl) in (d2, mkD cl2 []).
+  let '(d2, cl2) := fold_left (clone_body fs) (map fst (xps _ _ d1)) (d1, cl) in (d2, mkD cl2 (wrappers xml FIXED (xps _ _ d))).
 Proof. intros. unfold Package.d_clone. cbn [fx14 FIXED]. reflexivity. Qed.
 
 (* the loop of the repaired Document.clone: the original keeps its observations; the clone's container receives the
